@@ -167,6 +167,20 @@ func eval(c Case, sandbox string) hx.Result {
 				_ = os.WriteFile(filepath.Join(last, "sibling.txt"), []byte("text"), 0o644)
 				if !strings.ContainsRune(name, 0) {
 					_ = os.WriteFile(target, []byte("old content at the target"), 0o644)
+					// neighbours whose names derive from the target's: the other encoding's extension,
+					// no extension, backup / hidden / temporary spellings - none may be touched
+					tb := filepath.Base(target)
+					stem := strings.TrimSuffix(strings.TrimSuffix(tb, ".json"), ".yaml")
+					other := stem + ".json"
+					if isJSON {
+						other = stem + ".yaml"
+					}
+					for i, n := range []string{other, stem, tb + ".bak", "." + tb, tb + ".tmp", "spec.1.tmp", stem + ".yml"} {
+						if n == tb || n == "" {
+							continue
+						}
+						_ = os.WriteFile(filepath.Join(last, n), []byte(fmt.Sprintf(`{"cdiVersion":"1.0.0","kind":"other.org/n%d","devices":[{"name":"n","containerEdits":{"env":["SRC=neighbour"]}}]}`, i)), 0o644)
+					}
 				}
 			}
 		}
@@ -328,7 +342,7 @@ func main() {
 			}
 		}
 	}
-	r.Rule = fmt.Sprintf("%d Spec kinds (dots in vendor/class, classes ending in .json/.yaml, one-letter) x transient ids = every string of 0..%d tokens over %q (plus the non-transient name) x %d directory configurations (1-3 directories, last present / missing / nested missing / non-clean / repeated) x decoys (same name in lower directories, siblings, old file at the target) x both name APIs; "+
+	r.Rule = fmt.Sprintf("%d Spec kinds (dots in vendor/class, classes ending in .json/.yaml, one-letter) x transient ids = every string of 0..%d tokens over %q (plus the non-transient name) x %d directory configurations (1-3 directories, last present / missing / nested missing / non-clean / repeated) x decoys (same name in lower directories, siblings, old file at the target, neighbours named after the target: other extension, no extension, .bak/.tmp/hidden) x both name APIs; "+
 		"sequence per case: WriteSpec, Refresh+GetDevice, WriteSpec again, RemoveSpec, RemoveSpec again, with a snapshot (paths, types, content hashes) of a sandbox three levels above the Spec directories before and after every step. "+
 		"Oracle: name is one path component; exactly one file created/replaced at the model path with the model encoding; top precedence after refresh; remove deletes exactly that file; removing an absent name succeeds. Distinct by construction; all non-trivial",
 		len(kindsUnderTest), maxTok, idTokens, len(dirConfigs))
